@@ -2,6 +2,8 @@ package props
 
 import (
 	"go/token"
+	"go/types"
+	"sort"
 	"strings"
 
 	"golang.org/x/tools/go/ssa"
@@ -52,8 +54,44 @@ func init() {
 // posEndReceivers returns the receivers of the Pos()/End() calls (by method
 // name) a token.Pos value derives from.
 func posEndReceivers(v ssa.Value) map[string][]ssa.Value {
+	return posEndReceiversDepth(v, 0)
+}
+
+func posEndReceiversDepth(v ssa.Value, depth int) map[string][]ssa.Value {
 	out := map[string][]ssa.Value{}
 	for x := range BackSlice(v, SliceOpts{}) {
+		// a helper of the module that returns positions of one of its parameters: bounds(r) = r.Pos(), r.End()
+		if depth < 2 {
+			var hcall *ssa.Call
+			idx := 0
+			switch y := x.(type) {
+			case *ssa.Extract:
+				hcall, _ = y.Tuple.(*ssa.Call)
+				idx = y.Index
+			case *ssa.Call:
+				if _, isTuple := y.Type().(*types.Tuple); !isTuple {
+					hcall = y
+				}
+			}
+			if hcall != nil {
+				if callee := hcall.Call.StaticCallee(); callee != nil && FuncInModule(callee) && callee.Blocks != nil && callee.Signature.Recv() == nil {
+					for _, r := range Returns(callee) {
+						if idx >= len(r.Results) {
+							continue
+						}
+						for name, recvs := range posEndReceiversDepth(r.Results[idx], depth+1) {
+							for _, rv := range recvs {
+								for pi, prm := range callee.Params {
+									if rv == ssa.Value(prm) && pi < len(hcall.Call.Args) {
+										out[name] = append(out[name], hcall.Call.Args[pi])
+									}
+								}
+							}
+						}
+					}
+				}
+			}
+		}
 		call, ok := x.(*ssa.Call)
 		if !ok {
 			continue
@@ -90,6 +128,58 @@ func runC16(c *Ctx) {
 	}
 	report := c.Func("analysis/report", "Report")
 
+	// unexported helpers of package report that only Report (or another such helper) calls are part of Report
+	reportHelpers := map[*ssa.Function]bool{}
+	for _, h := range DeepFuncs(report, 2) {
+		if h == report || h.Parent() != nil || h.Object() == nil || h.Object().Exported() {
+			continue
+		}
+		onlyFromReport := true
+		for _, fn := range funcs {
+			top := fn
+			for top.Parent() != nil {
+				top = top.Parent()
+			}
+			if top == report || top == h {
+				continue
+			}
+			for _, ci := range Calls(fn, false) {
+				if ci.Common().StaticCallee() == h && !reportHelpers[top] {
+					onlyFromReport = false
+				}
+			}
+		}
+		if onlyFromReport {
+			reportHelpers[h] = true
+		}
+	}
+	// the value stored to a field of the diagnostic, seen from Report: a helper's parameter is replaced by
+	// the argument Report passes
+	reportStored := func(typ, field string) []ssa.Value {
+		var out []ssa.Value
+		for _, f := range append([]*ssa.Function{report}, SortedFuncs(reportHelpers)...) {
+			for _, v := range storedToField(f, typ, field) {
+				if prm, ok := v.(*ssa.Parameter); ok && f != report {
+					for pi, q := range f.Params {
+						if q != prm {
+							continue
+						}
+						for _, g := range DeepFuncs(report, 2) {
+							for _, ci := range Calls(g, false) {
+								if ci.Common().StaticCallee() == f && pi < len(ci.Common().Args) {
+									out = append(out, ci.Common().Args[pi])
+								}
+							}
+						}
+					}
+					continue
+				}
+				out = append(out, v)
+			}
+		}
+		return out
+	}
+
 	c.Rule("R16.1", func() {
 		c.Floor("R16.1", 4)
 		nLit, nCall := 0, 0
@@ -99,9 +189,9 @@ func runC16(c *Ctx) {
 				top = top.Parent()
 			}
 			Instrs(fn, false, func(in ssa.Instruction) {
-				if al, ok := in.(*ssa.Alloc); ok && strings.HasSuffix(al.Type().String(), "*golang.org/x/tools/go/analysis.Diagnostic") && al.Comment == "complit" {
+				if al, ok := in.(*ssa.Alloc); ok && strings.HasSuffix(al.Type().String(), "*golang.org/x/tools/go/analysis.Diagnostic") && buildsStruct(al) {
 					nLit++
-					c.Check(FuncKey(fn)+"::builds-analysis.Diagnostic", al.Pos(), top == report, "diagnostics are built in one place, report.Report, which applies the range, version and generated-file rules; a check that builds its own bypasses them")
+					c.Check(FuncKey(fn)+"::builds-analysis.Diagnostic", al.Pos(), top == report || reportHelpers[top], "diagnostics are built in one place, report.Report, which applies the range, version and generated-file rules; a check that builds its own bypasses them")
 				}
 				call, ok := in.(*ssa.Call)
 				if !ok || call.Call.IsInvoke() {
@@ -110,7 +200,7 @@ func runC16(c *Ctx) {
 				if DerivesLocal(call.Call.Value, IsFieldOf("analysis.Pass", "Report")) || DerivesLocal(call.Call.Value, IsFieldOf("analysis.Pass", "Reportf")) {
 					nCall++
 					_, listed := reportSites[fn.String()]
-					c.Check(FuncKey(fn)+"::calls-pass.Report", call.Pos(), top == report || listed, "pass.Report/Reportf may be called only by report.Report and the listed sites")
+					c.Check(FuncKey(fn)+"::calls-pass.Report", call.Pos(), top == report || reportHelpers[top] || listed, "pass.Report/Reportf may be called only by report.Report and the listed sites")
 				}
 			})
 		}
@@ -119,10 +209,10 @@ func runC16(c *Ctx) {
 		}
 		// Pos and End of the literal in Report come from one getRange call
 		var posV, endV ssa.Value
-		for _, v := range storedToField(report, "analysis.Diagnostic", "Pos") {
+		for _, v := range reportStored("analysis.Diagnostic", "Pos") {
 			posV = v
 		}
-		for _, v := range storedToField(report, "analysis.Diagnostic", "End") {
+		for _, v := range reportStored("analysis.Diagnostic", "End") {
 			endV = v
 		}
 		one := false
@@ -240,7 +330,6 @@ func runC16(c *Ctx) {
 		if rep == nil {
 			c.Undecided("the Report closure of (*analyzerRunner).do was not found")
 		}
-		disp := reportPkg + ".DisplayPosition"
 		pairs := []struct{ typ, field, srcTyp, srcField string }{
 			{"runner.Diagnostic", "Position", "analysis.Diagnostic", "Pos"},
 			{"runner.Diagnostic", "End", "analysis.Diagnostic", "End"},
@@ -254,20 +343,20 @@ func runC16(c *Ctx) {
 			ok := len(vals) > 0
 			why := "no store found"
 			for _, v := range vals {
-				call, isCall := v.(*ssa.Call)
-				if !isCall || !IsCallTo(call, disp) {
+				fsetV, posV, isDisp := displayCall(v)
+				if !isDisp {
 					ok, why = false, "not computed by report.DisplayPosition"
 					continue
 				}
-				if !Derives(call.Call.Args[0], IsFieldOf("loader.Package", "Fset")) {
+				if !Derives(fsetV, IsFieldOf("loader.Package", "Fset")) {
 					ok, why = false, "not the loaded package's file set"
 				}
-				src := DerivesLocal(call.Call.Args[1], IsFieldOf(p.srcTyp, p.srcField))
+				src := DerivesLocal(posV, IsFieldOf(p.srcTyp, p.srcField))
 				other := "End"
 				if p.srcField == "End" {
 					other = "Pos"
 				}
-				if !src || DerivesLocal(call.Call.Args[1], IsFieldOf(p.srcTyp, other)) {
+				if !src || DerivesLocal(posV, IsFieldOf(p.srcTyp, other)) {
 					ok, why = false, "converted from the wrong source field"
 				}
 			}
@@ -278,14 +367,14 @@ func runC16(c *Ctx) {
 	c.Rule("R16.4", func() {
 		c.Floor("R16.4", 2)
 		fx := false
-		for _, v := range storedToField(report, "analysis.Diagnostic", "SuggestedFixes") {
+		for _, v := range reportStored("analysis.Diagnostic", "SuggestedFixes") {
 			if DerivesLocal(v, IsFieldOf("report.Options", "Fixes")) {
 				fx = true
 			}
 		}
 		c.Check(FuncKey(report)+"::SuggestedFixes-forwarded", report.Pos(), fx, "the fixes a check attaches with report.Fixes reach the diagnostic unchanged")
 		rel := false
-		for _, v := range storedToField(report, "analysis.Diagnostic", "Related") {
+		for _, v := range reportStored("analysis.Diagnostic", "Related") {
 			if DerivesLocal(v, IsFieldOf("report.Options", "Related")) {
 				rel = true
 			}
@@ -384,4 +473,42 @@ func ordinalIn(fn *ssa.Function, target ssa.Instruction) int {
 		}
 	})
 	return found
+}
+
+// buildsStruct reports whether the cell is a struct value built here: a
+// composite literal, or a variable at least one of whose fields is assigned.
+func buildsStruct(al *ssa.Alloc) bool {
+	if al.Comment == "complit" {
+		return true
+	}
+	refs := al.Referrers()
+	if refs == nil {
+		return false
+	}
+	for _, r := range *refs {
+		// a variable that receives a whole value (a parameter spill, a copy) is not built here
+		if st, ok := r.(*ssa.Store); ok && st.Addr == ssa.Value(al) {
+			return false
+		}
+	}
+	for _, r := range *refs {
+		if fa, ok := r.(*ssa.FieldAddr); ok {
+			for _, rr := range *fa.Referrers() {
+				if st, ok := rr.(*ssa.Store); ok && st.Addr == ssa.Value(fa) {
+					return true
+				}
+			}
+		}
+	}
+	return false
+}
+
+// SortedFuncs returns the keys of a function set in a stable order.
+func SortedFuncs(m map[*ssa.Function]bool) []*ssa.Function {
+	var out []*ssa.Function
+	for f := range m {
+		out = append(out, f)
+	}
+	sort.Slice(out, func(i, j int) bool { return out[i].String() < out[j].String() })
+	return out
 }
